@@ -427,6 +427,85 @@ def r04e(ctx, rep, cr):
         rep.holds('R04e', 'relational_engine', 'merge-shaped comparisons', 'none in the crate')
 
 
+def _is_const_value(f, defs, op, depth=4):
+    """is the operand (a reference to) a Value built from a constant in this function, e.g. `&Value::Null`?"""
+    if op[0] == 'k':
+        return True
+    l = op[1][0]
+    for _ in range(depth):
+        d = A.single_def(defs, l)
+        if not d or d[2] != 'st':
+            return False
+        rv = d[3][1]
+        if rv[0] == 'agg':
+            return rv[1].startswith('relational_engine::Value::') and all(o[0] == 'k' for o in rv[2])
+        if rv[0] == 'ref':
+            l = rv[1][0]
+        elif rv[0] == 'use':
+            if rv[1][0] == 'k':
+                return True
+            l = rv[1][1][0]
+        else:
+            return False
+    return False
+
+
+def r04f(ctx, rep, cr):
+    rep.rule('R04f', 'index maintenance is decided by index keys, not by value equality: no call to index_add / index_remove / '
+                     'btree_index_add / btree_index_remove in a RelationalEngine function is control dependent on the outcome of '
+                     '`Value == Value` (PartialEq::eq / ne on relational_engine::Value). The hash index files a value under hash_key() — '
+                     'floats by bit pattern — while Value\'s PartialEq says -0.0 == 0.0: an update that "does not change" the value by == '
+                     'can still move it to another bucket, and a skipped re-index leaves the row under the old key, invisible to an '
+                     'indexed Eq lookup that a scan answers')
+    IDXC = re.compile(r'RelationalEngine::(index_add|index_remove|btree_index_add|btree_index_remove)$')
+    n = 0
+    for name, f in sorted(cr.fns.items()):
+        if not name.startswith(RE) or '{closure' in name:
+            continue
+        ics = [c for c in A.calls(f) if IDXC.search(c.resolved)]
+        if not ics:
+            continue
+        defs = A.Defs(f)
+        cd = A.control_deps(f)
+        dom = A.dominators(f)
+        n += 1
+        rep.analysed(f)
+        bad = None
+        valroots = None
+        for c in ics:
+            seen, work = set(), [c.bb]
+            while work and bad is None:
+                b_ = work.pop()
+                for (a_, s_) in cd.get(b_, ()):
+                    if a_ in seen:
+                        continue
+                    seen.add(a_)
+                    work.append(a_)
+                    l = lib.switch_local(f, a_)
+                    d = A.single_def(defs, l) if l is not None else None
+                    if d and d[2] == 'call' and re.search(r'PartialEq(<.*>)?>?::(eq|ne)$', d[3].generic + ' ' + d[3].resolved):
+                        tys = [f.locals[a[1][0]] for a in d[3].args if a[0] != 'k']
+                        if len(tys) == 2 and any(re.search(r'relational_engine::Value$', t.replace('&', '').strip()) for t in tys):
+                            # both sides are row / update values (what the index calls are handed), not a constant such as Value::Null
+                            if valroots is None:
+                                valroots = set()
+                                for x in ics:
+                                    if len(x.args) > 3 and x.args[3][0] != 'k':
+                                        valroots |= A.backward_slice(f, [x.args[3]], defs).locals
+                            sides = [A.backward_slice(f, [a], defs) for a in d[3].args]
+                            if all((sl_.locals & valroots) and not any('Value::Null' in str(k) for k in sl_.consts) and
+                                   not _is_const_value(f, defs, a) for sl_, a in zip(sides, d[3].args)):
+                                bad = (c, d[3])
+        if bad:
+            c, e = bad
+            rep.violation('R04f', f, 'reindex-decided-by-value-eq', f.loc(e.line),
+                          '%s is skipped or taken depending on `Value == Value` (line %d): values that are == can have different index keys '
+                          '(-0.0 / 0.0), and the row stays filed under the old one' % (lib.short(c.resolved), e.line))
+        else:
+            rep.holds('R04f', f, 'index calls', '%d index maintenance call(s), none behind a Value equality test' % len(ics))
+    rep.floor('R04f', 'functions with index maintenance calls', n, 3)
+
+
 def run(ctx, rep):
     cr = ctx.crate('relational_engine')
     r04a(ctx, rep, cr)
@@ -434,5 +513,6 @@ def run(ctx, rep):
     r04c(ctx, rep, cr)
     r04d(ctx, rep, cr)
     r04e(ctx, rep, cr)
+    r04f(ctx, rep, cr)
     import c09
     c09.r09f(ctx, rep, cr)   # index maintenance order: an index must keep answering what a scan answers
